@@ -50,6 +50,7 @@ struct JanetAssembler {
     int32_t environments_capacity;
     int32_t defs_capacity;
     int32_t bytecode_count; /* Used for calculating labels */
+    int32_t depth; /* Nesting of :closures / :defs, one C frame each */
 
     Janet name;
     JanetTable labels; /* keyword -> bytecode index */
@@ -509,6 +510,7 @@ static JanetAssembleResult janet_asm1(JanetAssembler *parent, Janet source, int 
     a.bytecode_count = 0;
     a.defs_capacity = 0;
     a.name = janet_wrap_nil();
+    a.depth = parent ? parent->depth + 1 : 0;
     janet_table_init(&a.labels, 0);
     janet_table_init(&a.slots, 0);
     janet_table_init(&a.envs, 0);
@@ -531,6 +533,8 @@ static JanetAssembleResult janet_asm1(JanetAssembler *parent, Janet source, int 
         janet_asm_deinit(&a);
         return result;
     }
+
+    janet_asm_assert(&a, a.depth < JANET_RECURSION_GUARD, "closures nested too deeply");
 
     janet_asm_assert(&a,
                      janet_checktype(s, JANET_STRUCT) ||
